@@ -135,6 +135,7 @@ def oracle(case, out):
     got = {"s": [], "a": []}          # read by the remote in this open period
     rsent, rgot = [], []              # remote -> user
     waiting = set()
+    old_sent = []
 
     def v(kind, msg, i):
         bad.append({"kind": kind, "msg": msg, "step": i, "op": case[i], "out": out[i] if i < len(out) else None})
@@ -158,6 +159,7 @@ def oracle(case, out):
         elif t[0] == "open":
             acc = {"s": [], "a": []}
             got = {"s": [], "a": []}
+            old_sent = old_sent + [x for x, _ in rsent]      # leftovers of the closed stream may still sit in the shared channel
             rsent, rgot = [], []
             waiting = set()
         elif t[0] == "sync":
@@ -198,6 +200,9 @@ def oracle(case, out):
             for tok in o.strip("[]").split():
                 if tok.startswith("r"):
                     s = int(tok[1:])
+                    if s in old_sent:
+                        old_sent = old_sent[old_sent.index(s) + 1:]      # in order, at most once
+                        continue
                     if s in rgot:
                         v("duplicate", f"{tok} delivered twice to the user", i)
                     rgot.append(s)
